@@ -146,6 +146,8 @@ func c01vViewVC(c vc.VerifiableCredential, dids, urls map[string]any) map[string
 					e["unmarshals"], e["urlOK"], e["entryId"] = false, false, ""
 				} else {
 					e["purpose"], e["listCred"] = en.StatusPurpose, en.StatusListCredential
+					// deepening round 2: the index TEXT; the model computes strconv.Atoi itself (NutsModel/C01/Atoi.lean), "index" below stays as a cross-check
+					e["indexText"] = en.StatusListIndex
 					// deepening round: the inputs of StatusList2021Entry.Validate the model computes the verdict from (net/url is a contract)
 					_, uerr := url.ParseRequestURI(en.StatusListCredential)
 					e["unmarshals"], e["urlOK"], e["entryId"] = true, uerr == nil, en.ID
@@ -438,6 +440,144 @@ func c01vValidators(o *c01vOut, rnd *rand.Rand, n int) {
 		c, what := c01vCredential(rnd, kind)
 		b, _ := json.Marshal(c)
 		c01vValidate(o, kind+":"+what, string(b))
+	}
+}
+
+// ---------------------------------------------------------------- credentialStatus entries (deepening round 2)
+
+// index texts around what strconv.Atoi accepts (the model computes the slot from the text: NutsModel/C01/Atoi.lean)
+var c01vIndexTexts = []string{"0", "1", "7", "42", "131071", "+7", "-0", "-000", "+0", "007", "0000000000000000000000012",
+	"9223372036854775807", "9223372036854775808", "+9223372036854775807", "-9223372036854775808", "-9223372036854775809",
+	"99999999999999999999", "999999999999999999", "1000000000000000000",
+	"", "+", "-", "-1", "-7", "--1", "++1", "+-1", " 1", "1 ", "1\n", "\t1", "1_0", "1_000", "0x10", "0b1", "0o7", "1e3", "1.0", "1,0", "١", "１", "1\u0000",
+	"٣", "1a", "a", "true", "null", "0-1", "1+"}
+
+func c01vStatusEntry(rnd *rand.Rand, n int) (map[string]any, string) {
+	list := "https://example.com/statuslist/" + strconv.Itoa(1+rnd.Intn(3))
+	e := map[string]any{"id": list + "#" + strconv.Itoa(n), "type": "StatusList2021Entry", "statusPurpose": "revocation",
+		"statusListIndex": strconv.Itoa(rnd.Intn(131072)), "statusListCredential": list}
+	what := "good"
+	switch rnd.Intn(14) {
+	case 0, 1, 2, 3, 4:
+		t := c01vPick(rnd, c01vIndexTexts)
+		e["statusListIndex"] = t
+		what = "index=" + strconv.QuoteToASCII(t)
+	case 5:
+		switch rnd.Intn(4) {
+		case 0:
+			e["statusListIndex"] = rnd.Intn(100)
+			what = "index-json-number"
+		case 1:
+			delete(e, "statusListIndex")
+			what = "index-absent"
+		case 2:
+			e["statusListIndex"] = nil
+			what = "index-null"
+		default:
+			e["statusListIndex"] = []any{"1"}
+			what = "index-list"
+		}
+	case 6:
+		e["id"] = list
+		what = "id-is-the-list"
+	case 7:
+		switch rnd.Intn(3) {
+		case 0:
+			delete(e, "id")
+			what = "id-absent"
+		case 1:
+			e["id"] = ""
+			what = "id-empty"
+		default:
+			e["id"] = 5
+			what = "id-number"
+		}
+	case 8:
+		t := c01vPick(rnd, []string{"", "Other", "statuslist2021entry", "StatusList2021Entry ", "StatusList2021"})
+		if t == "" && rnd.Intn(2) == 0 {
+			delete(e, "type")
+		} else {
+			e["type"] = t
+		}
+		what = "type=" + t
+		if t != "" && rnd.Intn(2) == 0 { // an entry of another type is not validated beyond id and type
+			e["statusListIndex"] = "-5"
+			what += "+bad-index"
+		}
+	case 9:
+		t := c01vPick(rnd, []string{"", "suspension", "Revocation", " "})
+		if t == "" && rnd.Intn(2) == 0 {
+			delete(e, "statusPurpose")
+		} else {
+			e["statusPurpose"] = t
+		}
+		what = "purpose=" + t
+	case 10:
+		t := c01vPick(rnd, []string{"", "example.com/list", "/relative/list", "http://[::1", "https://example.com/a b", "mailto:x@example.com", ":", "*"})
+		e["statusListCredential"] = t
+		what = "list=" + t
+	}
+	return e, what
+}
+
+func c01vStatusCredential(rnd *rand.Rand) (map[string]any, string) {
+	issuer := "did:nuts:CuE3qeFGGLhEAS3gKzhMCeqd1dGa9at5JCbmCfyMU2Ey"
+	c := map[string]any{
+		"@context":          []any{"https://www.w3.org/2018/credentials/v1", "https://nuts.nl/credentials/v1", "https://w3id.org/vc/status-list/2021/v1"},
+		"id":                issuer + "#" + strconv.Itoa(rnd.Intn(1000)),
+		"type":              []any{"VerifiableCredential", "OtherCredential"},
+		"issuer":            issuer,
+		"issuanceDate":      "2023-01-01T12:00:00Z",
+		"credentialSubject": map[string]any{"id": "did:nuts:GvkzxsezHvEc8nGhgz6Xo3jbqkHwswLmWw3CYtCm7hAW"},
+	}
+	what := ""
+	if rnd.Intn(5) == 0 { // a Nuts credential: validateNutsCredentialID + subject first, then the same default validator
+		c2, w := c01vCredential(rnd, "org")
+		delete(c2, "credentialStatus")
+		c2["@context"] = append(c2["@context"].([]any), "https://w3id.org/vc/status-list/2021/v1")
+		c, what = c2, "org("+w+"):"
+	}
+	n := 1 + rnd.Intn(3)
+	var entries []any
+	for i := 0; i < n; i++ {
+		e, w := c01vStatusEntry(rnd, i)
+		if n > 1 && i != rnd.Intn(n) && rnd.Intn(3) != 0 { // mostly ONE deviating entry among good ones, at every position
+			e, w = c01vStatusEntry(rand.New(rand.NewSource(1)), i)
+			for w != "good" {
+				e, w = c01vStatusEntry(rnd, i)
+			}
+		}
+		entries = append(entries, e)
+		what += strconv.Itoa(i) + "/" + strconv.Itoa(n) + ":" + w + ";"
+	}
+	switch rnd.Intn(12) {
+	case 0:
+		c["@context"] = []any{"https://www.w3.org/2018/credentials/v1", "https://nuts.nl/credentials/v1"}
+		what += "+no-status-context"
+	case 1:
+		entries = append(entries, c01vPick(rnd, []string{"x", ""}))
+		what += "+string-entry"
+	case 2:
+		entries = []any{}
+		what = "empty-list"
+	case 3:
+		c["credentialStatus"] = nil
+		return c, "status:null"
+	}
+	if len(entries) == 1 && rnd.Intn(2) == 0 {
+		c["credentialStatus"] = entries[0]
+		what += "+object"
+	} else {
+		c["credentialStatus"] = entries
+	}
+	return c, "status:" + what
+}
+
+func c01vStatuses(o *c01vOut, rnd *rand.Rand, n int) {
+	for i := 0; i < n; i++ {
+		c, what := c01vStatusCredential(rnd)
+		b, _ := json.Marshal(c)
+		c01vValidate(o, what, string(b))
 	}
 }
 
@@ -847,6 +987,7 @@ func TestVerifC01V(t *testing.T) {
 	c01vDates(o, rnd, 400*k)
 	c01vFilters(o, rnd, 300*k)
 	c01vAutos(o, rnd, 200*k)
+	c01vStatuses(o, rand.New(rand.NewSource(seed*7919+5)), 600*k)
 	sb, _ := json.Marshal(o.stats)
 	os.WriteFile(path.Join(outDir, "stats.json"), sb, 0o644)
 }
